@@ -127,6 +127,13 @@ pub fn det_source(idx: u64) -> String {
     if idx % 6 == 5 {
         s.push_str("  a = undeclared_thing;\n"); // error-producing source
     }
+    if idx % 7 == 4 {
+        // several errors of one kind in one function: the one that is reported must not depend on hashing
+        s.push_str("  if (a) goto nowhere1;\n  if (b) goto nowhere2;\n  goto nowhere3;\n");
+    }
+    if idx % 9 == 8 {
+        s.push_str("  b = undeclared_one + undeclared_two;\n");
+    }
     if idx % 11 == 3 {
         s.push_str("  X = t0[a + b + a + b];\n"); // may be refused: an error is an outcome too
     }
